@@ -53,8 +53,9 @@ ASSUMPTIONS = [
     "delete/delete_exact with one deletes the whole name (it is falsy), an empty RRset handed to add/replace is a ValueError; "
     "the reference model says the same (reading fixed here, DESIGN §6 style)",
     "versioned-zone readers/pruning/locking (C11, C12) and B-tree node flags / delegation index (C20) are not compared here",
-    "copy-on-write is modelled away (zones as persistent values): isolation of the published map is established by the "
-    "abort-at-every-index sweep of the tie, not by a theorem",
+    "zones are persistent values in the transaction model; that this is sound for the copy-on-write of WritableVersion over "
+    "shared mutable node objects is the theorem cow_isolation (Model/ZoneCow.lean); rdataset objects are treated as immutable "
+    "values (the transaction code clones before every union/difference)",
 ]
 LEVEL = {
     "text": "Lean 4 theorems over an executable model of dns/transaction.py + dns/zone.py (_validate_name, Version, WritableVersion, "
@@ -70,8 +71,9 @@ LEVEL = {
             "with an abort injected after every operation index, and by constants (CNAME/neutral/singleton type sets, serial width, "
             "MAX_TTL) regenerated from the working tree and fed to the theorems.",
     "note": "Trusted: Lean kernel + propext/Classical.choice/Quot.sound; the statements in lean/Props/C10.lean; the correspondence "
-            "harness and its generators (differential testing bounds the tie); harness/extract_C10.py. Copy-on-write isolation is "
-            "true by construction in the model (persistent values) and is carried by the abort sweep of the tie. The B-tree instance "
+            "harness and its generators (differential testing bounds the tie); harness/extract_C10.py. Copy-on-write isolation is a "
+            "theorem about an explicit shared-object store model (cow_isolation, Model/ZoneCow.lean) and is tied to the code by the "
+            "abort sweep. The B-tree instance "
             "is tied to the code through its content only (its flags / delegation index are C20's). One decision point is open in "
             "the code as it is (get_node on an ended transaction is not refused; KNOWN_FINDINGS): the full theorems are for the "
             "intended variant, current_code_refines_spec / ended_refuses_partial for the code as it is; the D09/D10 variants are "
@@ -806,7 +808,7 @@ def classify_mismatch(c, ref_before, op, expected, got):
                 if gone and len(keys) == 1:
                     return f"C10/delete/KeyError/last-rdataset-of-node-via-non-native-name/{c['cls']}"
         if k in ("add", "rep", "us") and got == "err:ValueError":
-            is_soa = k == "us" or canonical_store_args(op[2])[1][1] == SOA
+            is_soa = (k == "us" and op[2] > 0) or (k != "us" and canonical_store_args(op[2])[1][1] == SOA)
             if is_soa and Ref.canon([bytes.fromhex(x) for x in owner]) == ORIGIN:
                 return "C10/soa-at-origin/ValueError/origin-given-in-non-native-spelling"
     return f"C10/{k}/result-differs-from-reference"
